@@ -293,6 +293,11 @@ def run(rec, tier, seed):
     for tr in triples:
         for omset in ([0] if quick else [0, 1]):
             cases.append({'gen': ['rank2', list(tr), omset, 1.0]})
+    # the same kind on every pair, tables filled by one statement (table[types, types] = obj / setUnset), and the
+    # specification reached through an edit history
+    for kind in K:
+        for st in ('bulk-list', 'bulk-setunset', 'edits'):
+            cases.append({'gen': ['rank2', [kind, kind, kind], 0, 1.0], 'style': st})
     R3 = lattice.R3_KINDS
     six = [[R3[(a + b * p) % 4] for p in range(6)] for a in range(4) for b in range(4)] if quick else \
           [list(s) for s in itertools.product(R3, repeat=6) if sum(1 for x in s if x == 'PY+EXP') <= 2][::7]
